@@ -144,9 +144,23 @@ def run(ctx, out):
     for k, l in enumerate(hostile):
         hd.add((EX["h%d" % k], EX.p0, l))
     cases.insert(0, ("hostile-literals", hg, hd))
+    # directed: a Warning-severity result under both waiver flags (the verdict is `conforms`), and a sh:node result whose nested
+    # results sit under sh:detail (one result, not several)
+    wg, wd = Graph(), Graph()
+    wg.add((EX.WS, RDF.type, SH.NodeShape)); wg.add((EX.WS, SH.targetSubjectsOf, EX.p0)); wg.add((EX.WS, SH.nodeKind, SH.BlankNode)); wg.add((EX.WS, SH.severity, SH.Warning))
+    wg.add((EX.IS, RDF.type, SH.NodeShape)); wg.add((EX.IS, SH.targetSubjectsOf, EX.p0)); wg.add((EX.IS, SH["class"], EX.C0)); wg.add((EX.IS, SH.severity, SH.Info))
+    wd.add((EX.n0, EX.p0, EX.n1)); wd.add((EX.n2, EX.p0, Literal("v")))
+    cases.insert(1, ("opts:both:warning-worst", wg, wd))
+    ng, nd = Graph(), Graph()
+    inner, pin = EX.Inner, BNode()
+    ng.add((EX.NS, RDF.type, SH.NodeShape)); ng.add((EX.NS, SH.targetSubjectsOf, EX.p0)); ng.add((EX.NS, SH.node, inner))
+    ng.add((inner, RDF.type, SH.NodeShape)); ng.add((inner, SH.nodeKind, SH.BlankNode)); ng.add((inner, SH["class"], EX.C0)); ng.add((inner, SH.property, pin))
+    ng.add((pin, SH.path, EX.p0)); ng.add((pin, SH.maxCount, Literal(0))); ng.add((pin, SH.datatype, EX.dt))
+    nd.add((EX.n0, EX.p0, EX.n1)); nd.add((EX.n0, EX.p0, Literal("v")))
+    cases.insert(2, ("nested-detail", ng, nd))
     # abort_on_first is left out: which results a run that stops early reports depends on the iteration order (C12), so two
     # separate runs (API vs CLI process) may legitimately differ
-    opts_pool = [{}, {}, {"allow_infos": True}, {"allow_warnings": True}]
+    opts_pool = [{}, {}, {"allow_infos": True}, {"allow_warnings": True}, {"allow_infos": True, "allow_warnings": True}]
     out.rule = ("reports of Core shapes (40% complex paths, all literal kinds of the pool, blank-node values) and of sh:node/sh:property/"
                 "logical compositions (sh:detail nesting), options {default, allow_infos, allow_warnings} x 5 graph formats "
                 "through the API; a sample x (5 graph formats + human + table) through the command line; non-trivial = distinct report with >=1 result")
@@ -156,7 +170,7 @@ def run(ctx, out):
         jobs = []
         n_cli = 10 if quick else 120
         for i, (label, sg, dg) in enumerate(cases):
-            kw = opts_pool[i % len(opts_pool)]
+            kw = {"allow_infos": True, "allow_warnings": True} if label.startswith("opts:both") else opts_pool[i % len(opts_pool)]
             base = vcase.run_code(sg, dg, kw)
             if base[0] != "ok":
                 out.count("skipped:" + str(base[1]))
